@@ -25,12 +25,17 @@ pub struct Case {
     pub scn: Scenario,
     pub hist: Vec<Step>,
     pub req: Req,
+    /// overwrite the request's transport checksum with this value (the responder does not verify
+    /// inbound checksums; its reply must be well-formed all the same)
+    #[serde(default)]
+    pub req_csum: Option<u16>,
 }
 
 pub fn case_strategy() -> impl Strategy<Value = Case> {
     scenario_quiet(Fam::Any).prop_flat_map(|scn| {
         let v4 = scn.net.is_v4();
-        (Just(scn), prop_oneof![2 => Just(vec![]), 1 => vec(step_leaf(), 0..=6)], req(v4)).prop_map(|(scn, hist, req)| Case { scn, hist, req })
+        let csum = prop_oneof![5 => Just(None), 1 => prop::sample::select(vec![0u16, 0xffff, 0xdead, 1]).prop_map(Some), 1 => any::<u16>().prop_map(Some)];
+        (Just(scn), prop_oneof![2 => Just(vec![]), 1 => vec(step_leaf(), 0..=6)], req(v4), csum).prop_map(|(scn, hist, req, req_csum)| Case { scn, hist, req, req_csum })
     })
 }
 
@@ -54,13 +59,18 @@ pub fn run_case(c: &Case, st: &mut Stats) -> Option<(Vec<u8>, Vec<u8>)> {
         }
     }
     st.frames(w.sent + 1);
-    let reqf = match realize(&sut, &c.scn.net, &c.req) {
+    let mut reqf = match realize(&sut, &c.scn.net, &c.req) {
         Ok(f) => f,
         Err(_) => {
             st.class("skipped:unrealizable");
             return None;
         }
     };
+    if let Some(v) = c.req_csum {
+        if set_l4_checksum(&mut reqf, v) {
+            st.class("request-with-wrong-transport-checksum");
+        }
+    }
     let fam = if c.scn.net.is_v4() { "v4" } else { "v6" };
     match sut.frame(&reqf) {
         Out::Reply(r) => {
